@@ -1,13 +1,83 @@
 import Rooc.Wire
 import Rooc.Oracle
+import Rooc.Pre.Wire
 namespace Rooc.Drv.C18
-open Rooc Sexp
+open Rooc Sexp Rooc.Pre
 
-/-- model requests for C18 (run at `Float` for the exact diff, at `Ext Rat` as oracle). -/
-def handle (α : Type) [Arith α] [Wire α] : List Sexp → Sexp
+/-- the operator core always runs at `Float` (bit-exact against rustc's f64) -/
+def handleF : List Sexp → Sexp
+  | [.atom "binop", .atom op, a, b] =>
+    match BinOp.ofName op, (Prim.dec a : Option (Prim Float)), (Prim.dec b : Option (Prim Float)) with
+    | some op, some a, some b => encRes (applyBinary a op b)
+    | _, _, _ => app "err" [.atom "decode"]
+  | [.atom "unop", .atom op, a] =>
+    match UnOp.ofName op, (Prim.dec a : Option (Prim Float)) with
+    | some op, some a => encRes (applyUnary op a)
+    | _, _ => app "err" [.atom "decode"]
+  | [.atom "cast", .atom which, a] =>
+    match (Prim.dec a : Option (Prim Float)) with
+    | none => app "err" [.atom "decode"]
+    | some a =>
+      match which with
+      | "number" => (match asNumberCast a with | .ok x => app "ok" [encNum x] | .error _ => app "err" [.atom "WrongArgument"])
+      | "integer" => (match asIntegerCast a with | .ok i => app "ok" [.atom (toString i)] | .error _ => app "err" [.atom "WrongArgument"])
+      | "usize" => (match asUsizeCast a with | .ok n => app "ok" [.atom (toString n)] | .error _ => app "err" [.atom "WrongArgument"])
+      | _ => app "err" [.atom "bad-request"]
+  | [.atom "kindof", a] =>
+    match (Prim.dec a : Option (Prim Float)) with
+    | some a => app "ok" [a.kind.enc]
+    | none => app "err" [.atom "decode"]
   | _ => app "err" [.atom "bad-request"]
 
-/-- exact oracle: the PROPERTY evaluated on the implementation's own answer. -/
+def handle (α : Type) [Arith α] [Wire α] (args : List Sexp) : Sexp := handleF args
+
+/-! ### oracle: the property itself on the implementation's answers -/
+
+def badOutcomes : List String := ["panic", "hang", "abort", "abort-alloc", "abort-stack", "render-failed"]
+
+/-- `stage=outcome` atoms of a pipeline run -/
+def stageVerdict : List Sexp → Option (String × String)
+  | [] => none
+  | .atom s :: rest =>
+    match s.splitOn "=" with
+    | [stage, outcome] => if badOutcomes.contains outcome then some (stage, outcome) else stageVerdict rest
+    | _ => stageVerdict rest
+  | _ :: rest => stageVerdict rest
+
+def exactInt : Prim Float → Option Int
+  | .integer i => some i
+  | .pint n => some (n : Int)
+  | .boolean b => some (if b then 1 else 0)
+  | _ => none
+
 def oracle : List Sexp → Sexp
+  | [.atom "total", .list outcomes] =>
+    match stageVerdict outcomes with
+    | some (stage, outcome) => app "violation" [.atom ("stage-" ++ outcome), .atom stage]
+    | none => app "ok" []
+  | [.atom "opcore", .list req, imp] =>
+    if imp == app "panic" [] then app "violation" [.atom "operator-panics", .list req]
+    else match req, imp with
+      -- exact integer meaning: an `Integer` / `PositiveInteger` result of + - * is the mathematical result
+      | [.atom "binop", .atom op, a, b], .list [.atom "ok", r] =>
+        match (Prim.dec a : Option (Prim Float)), (Prim.dec b : Option (Prim Float)), (Prim.dec r : Option (Prim Float)) with
+        | some (.boolean _), _, _ => app "ok" []
+        | some pa, some pb, some pr =>
+          match exactInt pa, exactInt pb, pr with
+          | some x, some y, .integer v | some x, some y, .pint v =>
+            let exact : Option Int := match op with | "add" => some (x + y) | "sub" => some (x - y) | "mul" => some (x * y) | _ => none
+            (match exact with
+             | some e => if e == v then app "ok" [] else app "violation" [.atom "silent-integer-wrap", .atom (toString e), .atom (toString v)]
+             | none => app "ok" [])
+          | _, _, _ => app "ok" []
+        | _, _, _ => app "ok" []
+      | [.atom "unop", .atom "neg", a], .list [.atom "ok", r] =>
+        match (Prim.dec a : Option (Prim Float)), (Prim.dec r : Option (Prim Float)) with
+        | some pa, some (.integer v) =>
+          (match exactInt pa with
+           | some x => if -x == v then app "ok" [] else app "violation" [.atom "silent-integer-wrap", .atom (toString (-x)), .atom (toString v)]
+           | none => app "ok" [])
+        | _, _ => app "ok" []
+      | _, _ => app "ok" []
   | _ => app "err" [.atom "bad-request"]
 end Rooc.Drv.C18
